@@ -12,6 +12,7 @@ BUILD = os.path.join(VERIF, 'build')
 
 KINDS = [
     ('postcondition', r'postcondition not satisfied'),
+    ('closure_postcondition', r'unable to prove post-condition of closure'),
     ('precondition', r'precondition not satisfied'),
     ('invariant_entry', r'invariant not satisfied before loop'),
     ('invariant_step', r'invariant not satisfied at end of loop body'),
